@@ -168,12 +168,31 @@ class Session:
             r.time_s = time.time() - t
         return r
 
-    def oblige(self, name, fn, functions=(), kind="deductive"):
+    def oblige(self, name, fn, functions=(), kind="deductive", fallback=None):
         """Run one obligation. kind: deductive (unbounded), finite (complete enumeration of a finite
-        domain on the real code), frame."""
+        domain on the real code), frame.
+
+        fallback: () -> {"reproduced": bool, ...}, a native run of the real function against the independent oracle of the same contract.  It is used only when
+        the current source left the deductive engine's subset (UNKNOWN / outside subset): a failing native input then refutes the obligation; if the native run
+        agrees with the oracle the obligation is recorded as a BOUNDED stand-in for this run (labelled so, never counted as discharged) instead of undecided."""
         self.under_contract(*functions)
         r = self._run(name, fn)
-        self.obligations.append((name, r, {"kind": kind}))
+        if fallback is not None and r.status == UNKNOWN and r.backend == "engine" and "outside subset" in r.detail:
+            t = time.time()
+            try:
+                rep = fallback()
+            except Exception:
+                rep = None
+                r.detail += " | bounded fall-back crashed: " + traceback.format_exc()[-400:]
+            if isinstance(rep, dict) and rep.get("reproduced"):
+                r = Result(REFUTED, "runtime-contract", "the source left the deductive engine's subset (%s); the bounded fall-back (native run against the contract's oracle) fails: %s"
+                           % (r.detail[:300], json.dumps(_jsonable(rep))[:1500]), witness_id="fallback:" + name, replay=rep, time_s=time.time() - t)
+            elif isinstance(rep, dict):
+                self.bounded.append({"name": name + " [fall-back]", "label": "bounded", "bound": "deductive obligation undecided on this source (%s); native runs of the real function "
+                                     "against the contract's oracle instead: %s" % (r.detail[:200], str(rep.get("note", rep))[:300]),
+                                     "evaluations": int(rep.get("evaluations", 1)), "distinct_nontrivial": int(rep.get("evaluations", 1)), "failures": 0})
+                r = Result("bounded", "runtime-contract", "not discharged: bounded fall-back only | " + r.detail[:400], time_s=time.time() - t)
+        self.obligations.append((name, r, {"kind": kind, "functions": list(functions)}))
         if r.sample and len(self.samples) < 6:
             self.samples.append({"obligation": name, "text": r.sample[:1500]})
         if r.status == REFUTED:
@@ -184,14 +203,40 @@ class Session:
             self.crashed.append((name, r.detail[-1500:]))
         return r
 
+    @staticmethod
+    def _fkey(f):
+        """module.function key of a `functions under contract` entry (class and free text dropped)"""
+        f = f.split(" ")[0].replace("cij/", "").replace("/", ".").replace(".py", "")
+        parts = [p for p in f.split(".") if p and p != "*"]
+        return (parts[0], parts[-1]) if parts else ("", "")
+
+    def _covered_by_bounded(self, name):
+        """an obligation left undecided because the source left the engine's subset is covered when a bounded stand-in of this run exercised the same function
+        of the real code against the contract's oracle and passed"""
+        meta = next((m for n, r, m in self.obligations if n == name), None)
+        if not meta:
+            return None
+        keys = {self._fkey(f) for f in meta.get("functions", [])}
+        for b in self.bounded:
+            if b.get("failures"):
+                continue
+            bk = {self._fkey(f) for f in b.get("functions", [])}
+            if any(k == q or (k[0] == q[0] and (k[1] == q[1] or q[1] == q[0] or k[1] == k[0])) for k in keys for q in bk):
+                return b["name"]
+        return None
+
     def canary(self, name, fn):
         """A deliberately wrong variant of an obligation: must be REFUTED, otherwise the obligation
         it shadows is vacuous (exit 3)."""
         r = self._run(name, fn)
         self.canaries.append((name, r))
         if r.status == UNKNOWN and r.detail.startswith("outside subset"):
-            # the code left the engine's subset: the canary says nothing (the obligation it shadows is undecided as well)
-            self.undecided.append((name, r.detail[:300]))
+            # the code left the engine's subset: the canary says nothing; the obligation it shadows left the subset as well and is decided on its own
+            # (undecided, or its bounded fall-back)
+            self.notes.setdefault("canaries_not_applicable", []).append([name, r.detail[:200]])
+        elif r.status == UNKNOWN:
+            # an undecided canary says nothing about vacuity (only a canary that is PROVED does)
+            self.notes.setdefault("canaries_undecided", []).append([name, r.detail[:200]])
         elif r.status != REFUTED:
             self.canary_failures.append((name, "canary not refuted (%s): obligation may be vacuous. %s"
                                          % (r.status, r.detail[-600:])))
@@ -208,7 +253,7 @@ class Session:
         {"witness_id":..., "input":..., "observed":..., "expected":...}; never counted as discharged."""
         self.under_contract(*functions)
         self.bounded.append({"name": name, "label": "bounded", "bound": bound, "evaluations": evaluations,
-                             "distinct_nontrivial": distinct, "failures": len(failures)})
+                             "distinct_nontrivial": distinct, "failures": len(failures), "functions": list(functions)})
         for f in failures:
             r = Result(REFUTED, "runtime-contract", json.dumps(_jsonable(f))[:3000], model=_jsonable(f.get("input")),
                        witness_id=f.get("witness_id"), replay={"reproduced": True, **_jsonable(f)})
@@ -254,6 +299,12 @@ class Session:
         for _, r, m in self.obligations:
             by_backend[r.backend] = by_backend.get(r.backend, 0) + 1
             solver_time += r.time_s
+        # deductive obligations the current source put outside the engines' subset, but whose function a passing bounded stand-in of this run exercised
+        covered, still = [], []
+        for n, d in self.undecided:
+            b = self._covered_by_bounded(n) if "outside subset" in d else None
+            (covered if b else still).append((n, d) if not b else (n, b, d))
+        self.undecided = still
         canaries_refuted = sum(1 for _, r in self.canaries if r.status == REFUTED)
         b_eval = sum(b["evaluations"] for b in self.bounded)
         b_dist = sum(b["distinct_nontrivial"] for b in self.bounded)
@@ -296,6 +347,7 @@ class Session:
             "known_findings_printed": self.known_printed,
             "python_semantics_assumed": self.python_semantics,
             "undecided": [list(u) for u in self.undecided],
+            "undecided_but_covered_by_bounded_stand_in": [list(u) for u in covered],
             "crashed": [list(u) for u in self.crashed + self.canary_failures],
             "exit_code": code,
         }
@@ -314,6 +366,8 @@ class Session:
             print("CHECKER-ERROR %s: %s" % (n, d))
         for n, d in self.undecided:
             print("UNDECIDED %s: %s" % (n, d))
+        for n, b, d in covered:
+            print("NOT-DISCHARGED %s: the source left the deductive engine's subset (%s); covered for this run by the bounded stand-in %s" % (n, d[:160], b))
         if code == 1:
             for n, p, suffix in self.violations:
                 print("FAILED-OBLIGATION %s" % n)
